@@ -296,6 +296,6 @@ CHECK = PropertyCheck(
           "evaluations, budget stops, and external/in-process pairs whose complete evaluator traces are hashed. Non-trivial: a crash "
           "after the configuration handshake, an exception after the first evaluation, a child error or stop."),
     assumptions=["the wrapper executable imports the real child code and only wraps the communicator's write method",
-                 "a run exceeding 60 s is a hang"],
+                 "a run exceeding 120 s is a hang (900 s for the 20000-variable pair)"],
     exhaustive_claim=False, pool=6,
 )
